@@ -186,7 +186,7 @@ func runC05(c *Ctx) {
 			r.Add("R3", "tracker-mut:"+c.FuncKey(fn)+":"+m, c.InstrPos(cs), c.FuncKey(fn), "tracker mutation "+m+" happens synchronously inside the internal phase or a lifecycle function", ok, why)
 		}
 	}
-	r.Floor("R3", "mutating tracker call sites", nm, 30)
+	r.Floor("R3", "mutating tracker call sites", nm, 13)
 	r.Sites += nm
 
 	// R4 / R5 (shared with C03.R3 and C04.R3)
